@@ -372,10 +372,13 @@ class ScipyOptimizeDriver(Driver):
                         i = self._con_idx[name]
                         A = lincongrad[i:i + size]
                         b = self._con_cache[name] - A.dot(x_init)
+                        # Only trust-constr starts from the point the user provides; the global
+                        # optimizers choose their own points, which cannot be required to be
+                        # feasible (shgo raises at once if they are not).
                         con = LinearConstraint(A=A,
                                                lb=np.where(lb > -INF_BOUND, lb - b, -np.inf),
                                                ub=np.where(ub < INF_BOUND, ub - b, np.inf),
-                                               keep_feasible=True)
+                                               keep_feasible=(opt == 'trust-constr'))
                         constraints.append(con)
                     else:
                         # NonlinearConstraint
